@@ -191,7 +191,18 @@ impl ToTokens for Expansion<'_> {
 
         // `&` binds tighter than `+`, so a trait object with several bounds has to be parenthesized
         // before a reference to it can be spelled.
+        // Also, a trait object without a lifetime bound is `'static` where the user wrote it (in a
+        // field or in the attribute), but would take the lifetime of the reference in the method's
+        // signature, so that bound is spelled out.
         let referent = |ty: &syn::Type| match ty {
+            syn::Type::TraitObject(obj)
+                if !obj
+                    .bounds
+                    .iter()
+                    .any(|b| matches!(b, syn::TypeParamBound::Lifetime(_))) =>
+            {
+                quote! { (#ty + 'static) }
+            }
             syn::Type::TraitObject(obj) if obj.bounds.len() > 1 => quote! { (#ty) },
             _ => quote! { #ty },
         };
